@@ -39,7 +39,7 @@ ASSUMPTIONS = ['results of an edition = the parsed responses and batch data, wit
                'the cut point is solver-chosen; reading a file concretises it (one path per offset of the stated range)',
                'per-path wall-clock limit of 60 s stands for "never hangs"']
 OUTSIDE = ['what the pyparsing grammar does on blocks that the scanner does not deliver (the scanner only hands over complete editions)',
-           'listings other than the three used', 'parsing from several threads']
+           'listings other than the three used', 'concurrent parsing (only: a parse from a second thread after a refused block comes back)']
 EXPLANATION = ('bounded-exhaustive symbolic execution (symrun + z3 enumerating the symbolic cut offset) of the real Scanner/Parser on truncated '
                'shipped listings; exception types and per-edition results compared with the complete listing')
 
@@ -138,7 +138,8 @@ def make_harness(name, lo, hi, offsets, parse_every):
             except Exception as e:      # noqa
                 pa = f'{type(e).__name__}: {e}'
             ex.check(pa in ('ok', 'own'), 'opening-raises-only-the-parser-exception', detail=pa)
-            if pa == 'ok' and parse_every and k % parse_every == 0:
+            near_end_flag = any(f in data[max(0, data.rfind(b'\n', 0, k)):k + 1] for f in (b'simulation time', b'exploitation time', b'elapsed time'))
+            if pa == 'ok' and ((parse_every and k % parse_every == 0) or near_end_flag):
                 bns = p.batch_numbers()
                 ex.check(all(bn in full for bn in bns), 'editions-of-the-truncated-listing-exist-in-the-complete-one', detail=str(bns))
                 if bns:
@@ -147,7 +148,21 @@ def make_harness(name, lo, hi, offsets, parse_every):
                         ok = deep_equal(_edition(r), _edition(full.get(bns[-1])))
                         ex.check(ok, 'parsed-edition-equals-the-same-edition-of-the-complete-listing', detail=f'batch {bns[-1]}')
                     except ParserException:
-                        pass
+                        # "whatever was parsed earlier in the same process": after a refused block, a parse
+                        # from ANOTHER thread must still come back (no lock left behind)
+                        import threading
+                        box = {}
+
+                        def other():
+                            try:
+                                q = Parser(os.path.join(DATA, LISTINGS[name]))
+                                box['n'] = len(q.parse_from_index(0).res)
+                            except Exception as e2:      # noqa
+                                box['exc'] = repr(e2)
+                        th = threading.Thread(target=other, daemon=True)
+                        th.start()
+                        th.join(30)
+                        ex.check(not th.is_alive(), 'a-refused-block-does-not-make-later-parsing-hang', detail=f'cut {k}')
                     except Exception as e:      # noqa
                         ex.check(False, 'parsing-raises-only-the-parser-exception', detail=f'{type(e).__name__}: {e}')
         finally:
